@@ -238,9 +238,10 @@ def run_case(desc, ctx):
             pos_ = ss[u_].find(anchor)
             if pos_ >= 0:
                 region = list(ss[u_][max(0, pos_ - k):pos_ + 5 * k])
-                off_ = (pos_ - max(0, pos_ - k)) + 2 * k - (k - 1) // 2 - 1          # (k-1)/2 + 1 bases before the indel position
+                # the middle base of the last split k-mer before the indel, or of the first one that reaches into it
+                off_ = (pos_ - max(0, pos_ - k)) + 2 * k - (k - 1) // 2 - rng.choice([0, 1, 1, 2])
                 if 0 <= off_ < len(region):
-                    region[off_] = {'A': 'C', 'C': 'G', 'G': 'T', 'T': 'A'}[region[off_]]
+                    region[off_] = rng.choice([b_ for b_ in 'ACGT' if b_ != region[off_]])
                     dupcontig = (u_, ''.join(region))
                     res.count('samples_with_a_diverged_duplicate_near_an_indel')
     pool = ['zeta', 'alpha', 'Mu', 'beta9', 'x10', 'x2', 'omega', 'delta', 'B_7', 'kappa', 'a1', 'Z', 'q-3', 'nu.2']
